@@ -213,6 +213,10 @@ func (o *FilterOptimizer) optimizeBetweenExpr(e *BinaryOpExpr) *ScanType {
 	}
 
 	if field == KeyKW && canUseRange {
+		if bytes.Compare(lower, upper) > 0 {
+			// lower boundary is greater than upper boundary: no key is in between
+			return &ScanType{EMPTY, nil}
+		}
 		return &ScanType{RANGE, [][]byte{lower, upper}}
 	}
 	return &ScanType{FULL, nil}
